@@ -333,6 +333,15 @@ func init() {
 						c15Check(px, "vers", argv, ok, exact, nil)
 					}
 				}
+				// a leading flag-like or empty argument in front of a valid invocation is not an ecosystem
+				for _, pre := range []string{"--", "-", "--version", "-version", "-version=false", "-h", "--help", "-v", "", " ", "--ecosystem=npm"} {
+					for _, tail := range [][]string{{"npm", "compare", "1.0.0", "2.0.0"}, {"vers", "contains", "vers:npm/*", "1.0.0"}, {"npm", "sort", "2.0.0", "1.0.0"}, {}} {
+						argv := append([]string{pre}, tail...)
+						r.Add("states", 1)
+						c15Check(x, "names", argv, false, "", nil)
+						c15Check(px, "names", argv, false, "", nil)
+					}
+				}
 				for _, argv := range [][]string{{"vers"}, {"vers", "compare", "1", "2"}, {"vers", "sort", "1"}, {"vers", "Contains", "vers:npm/*", "1.0.0"}, {"vers", ""}} {
 					c15Check(x, "vers", argv, false, "", nil)
 				}
